@@ -440,8 +440,8 @@ def run_unit(params, seed):
 
 def plan(tier, verif_seed):
     q = tier == "quick"
-    return [{"gen": "blackbox"}] * (16 if q else 400) + [{"gen": "seam-long"}] * (16 if q else 200) + \
-        [{"gen": "history"}] * (1500 if q else 60000) + [{"gen": "seam"}] * (6000 if q else 300000)
+    return [{"gen": "blackbox"}] * (32 if q else 400) + [{"gen": "seam-long"}] * (32 if q else 200) + \
+        [{"gen": "history"}] * (6000 if q else 60000) + [{"gen": "seam"}] * (24000 if q else 300000)
 
 
 def describe():
